@@ -265,6 +265,21 @@ def cases(tier, rng):
                 for i in range(-n - 2, n + 2):
                     yield {"op": "program", "enc": enc, "v": _val_json(val), "ops": [{"o": "insert", "i": i, "v": [c[1], c[2]]}]}
                     yield {"op": "program", "enc": enc, "v": _val_json(val), "ops": [{"o": "setFlat", "ix": {"t": "int", "i": i}, "v": [c[3]]}]}
+    # 1b. every single column of every column-strided / reversed view of two long rows (and of a materialised copy of it)
+    for enc in ENCS:
+        codes = list(range(len(ALPH[enc]))) if enc != "BaseEncoding" else [ord(ch) for ch in ALPH[enc]]
+        rows = [[codes[(i * 3 + k) % len(codes)] for k in range(L)] for i, L in enumerate((7, 6))]
+        for st in (2, 3, -1, -2, -3):
+            for a in (None, 1):
+                base = [{"o": "colSlice", "a": a, "b": None, "s": st}] if (st > 0 or a is None) else [{"o": "colSlice", "a": None, "b": None, "s": st}]
+                n_cols = min(len(r[slice(base[0]["a"], None, st)]) for r in rows)
+                for j in range(-n_cols, n_cols):
+                    for npint in (False, True):
+                        yield {"op": "program", "enc": enc, "v": _val_json(("rag", rows)), "npint": npint,
+                               "ops": base + [{"o": "colInt", "rows": {"t": "slice", "a": None, "b": None, "s": 1}, "j": j}]}
+                        if not npint:
+                            yield {"op": "program", "enc": enc, "v": _val_json(("rag", rows)),
+                                   "ops": base + [{"o": "copy"}, {"o": "colInt", "rows": {"t": "list", "is": [1, 0]}, "j": j}]}
     # 2. random programs
     for _ in range(12000 if big else 1500):
         enc = rng.choice(ENCS)
